@@ -13,6 +13,9 @@ func (u *UseCase) Begin(ctx context.Context, isoLevel model.TxIsoLevel) (string,
 	verifhook.Point("begin.start")
 	id := u.idGen.Generate()
 
+	sequence.LockHorizon()
+	defer sequence.UnlockHorizon()
+
 	err := u.txRepo.Store(ctx, model.Transaction{
 		Id:       id,
 		IsoLevel: isoLevel,
